@@ -22,6 +22,20 @@ CFG = {
                   "domain wrapper: one operation per harness on 17 binary, 5 unary, 5 cast operations and 3 subpiece shapes; loop unwinding 4 with unwinding assertions on",
         "oracle": "P-Code reference-manual semantics written on native machine integers (src/c01.rs: ref_binop/ref_unop/ref_cast); SDIV/SREM follow the Ghidra emulator (truncating, MIN/-1 wraps)",
     },
+    "C02": {
+        "module": "c02",
+        "unwind": 4,
+        # binary gcd on operands < 2^k runs at most 2k iterations: strides are < 2^8 at 1 byte -> 18
+        "unwindset": [(r"^gcd::.*binary_u(8|16|32|64|size)$|^<u(8|16|32|64|size) as gcd::Gcd>::gcd_binary$", 18)],
+        "functions": [
+            "Interval::{contains, add, sub, signed_mul, int_2_comp, bitwise_not, zero_extend, piece, subpiece, subpiece_higher, subpiece_lower, adjust_end_to_value_in_stride, adjust_start_to_value_in_stride, adjust_to_stride_and_remainder} (abstract_domain/interval/simple_interval.rs)",
+            "BitvectorExtended::{signed_add_overflow_checked, signed_sub_overflow_checked, signed_mult_with_overflow_flag, subpiece, bin_op(Piece)} as called from there",
+            "gcd::Gcd::gcd for u64 (dependency, executed symbolically, not stubbed)",
+        ],
+        "bounds": "layer 1 only (struct Interval); all well-formed 1-byte strided intervals (start, end, stride fully symbolic, stride <= 255) and all members; piece 1+1 bytes; subpiece of 2-byte intervals (strides <= 255) and 4-byte intervals (strides <= 15); zero-extension 1->2 and 1->8 bytes; 8-byte contains/negation with strides <= 16; "
+                  "loop unwinding 4, binary-gcd loop 18 (>= 2*8+2), unwinding assertions on. Outside: IntervalDomain-level dispatch and widening hints (decided by the result-validation engine, see C02 evidence 'domain_layer'), 8-byte add/sub/mul",
+        "oracle": "membership and well-formedness recomputed from the public fields start/end/stride on native integers; concrete operation = C01 reference semantics",
+    },
     "C19": {
         "module": "c19",
         "unwind": 10,
@@ -49,7 +63,7 @@ COMMON_ASSUMPTIONS = [
 def harness_names(module):
     src = open(os.path.join(K.KDIR, "src", module + ".rs")).read()
     blk = src[src.rindex("crate::harnesses!"):]
-    return [(n, bool(q)) for q, n in re.findall(r"^\s*(@quick\s+)?(\w+)\s*=>", blk, re.M)]
+    return [(n, bool(q)) for q, n in re.findall(r"^\s*(@quick\s+)?(\w+)\s*\[\d+\]\s*=>", blk, re.M)]
 
 
 def run(prop, tier):
@@ -65,7 +79,20 @@ def run(prop, tier):
     full = ["%s::%s" % (cfg["module"], n) for n in names]
     jobs = int(os.environ.get("VERIF_JOBS", "12"))
     per_harness = int(os.environ.get("VERIF_HARNESS_TIMEOUT", "600" if tier == "quick" else "2700"))
-    extra = cfg.get("extra_cbmc", [])
+    extra = list(cfg.get("extra_cbmc", []))
+    if cfg.get("unwindset"):
+        # per-loop bounds for the few genuinely data-dependent loops; the loop ids are read from this build's symbol maps
+        K.codegen_only(full, features)
+        sets = []
+        for rx, bound in cfg["unwindset"]:
+            ids = K.loop_ids(full, rx)
+            if not ids:
+                log("note: no function matches %s in the symbol maps" % rx)
+            for i in ids:
+                for k in range(0, 3):
+                    sets.append("%s.%d:%d" % (i, k, bound))
+        if sets:
+            extra += ["--unwindset", ",".join(sets)]
     cmd, rc, out, wall = K.run_kani(full, jobs=jobs, harness_timeout=per_harness, unwind=cfg["unwind"], extra_cbmc=extra, features=features)
     res = K.parse(out)
     os.makedirs(os.path.join(K.BUILD if hasattr(K, "BUILD") else os.path.join(VERIF, ".build"), "logs"), exist_ok=True)
@@ -134,7 +161,7 @@ def run(prop, tier):
     coverage = {
         "obligations": len(full),
         "discharged": discharged,
-        "checker_cmd": " ".join(cmd[:14]) + " ... (%d harnesses) --cbmc-args --unwind %d %s" % (len(full), cfg["unwind"], " ".join(extra)),
+        "checker_cmd": " ".join(cmd[:14]) + " ... (%d harnesses) (per-harness #[kani::unwind(n)]) --cbmc-args %s" % (len(full), " ".join(extra)[:300]),
         "trusted_base": ["Kani 0.68.0", "CBMC 6.11.0", "CaDiCaL (CBMC default SAT back end)", "reference oracle in engines/kani/src/%s.rs" % cfg["module"]] + K.STUBS,
         "functions_encoded": cfg["functions"],
         "bounds": cfg["bounds"],
